@@ -3,7 +3,7 @@
  "name": "pop_inline_expand_file",
  "props": ["C09", "C18"],
  "level": "P",
- "tier": "wip",
+ "tier": "quick",
  "harness": "h_expand_file",
  "defines": ["EXT2_CUSTOM_MEMORY_ROUTINES"],
  "replace": ["ext2fs_inline_data_dir_expand"],
@@ -40,13 +40,14 @@
  "name": "pop_inline_expand_dir",
  "props": ["C18", "C10"],
  "level": "U/k",
- "tier": "wip",
+ "tier": "thorough",
  "harness": "h_expand_dir",
  "defines": ["EXT2_CUSTOM_MEMORY_ROUTINES"],
  "replace": ["ext2fs_inline_data_file_expand"],
  "sources": ["lib/ext2fs/dir_iterate.c"],
  "unwind": 14,
  "unwindset": {"ext2fs_inline_data_convert_dir.0": 9},
+ "timeout": 900,
  "unwind_reason": "the entry walk of ext2fs_inline_data_convert_dir advances by rec_len >= 8 (well-formed entries) through at most 56 + 8 bytes of entries: at most 8 rounds; other loops: 12-character key comparison of the stubs, DFCC library loops (unwinding assertions on)",
  "functions": ["lib/ext2fs/inline_data.c:ext2fs_inline_data_expand", "lib/ext2fs/inline_data.c:ext2fs_inline_data_dir_expand", "lib/ext2fs/inline_data.c:ext2fs_inline_data_convert_dir"],
  "assumes": ["no contract enforced: harness CHECKs + ghost monitor in the stubs; ext2fs_get_rec_len / ext2fs_set_rec_len are the real ones (dir_iterate.c)",
